@@ -195,7 +195,7 @@ def make_workspace(ctx, rng, sleepers):
             job = t.__xpm__.job
             jobs.append({"path": Path(job.path), "rel": str(job.relpath), "name": job.name, "tags": tags})
     finally:
-        xp.__exit__(RuntimeError, None, None)
+        xpctx.leave_experiment(xp)
     shutil.rmtree(wd / "xp" / "gen", ignore_errors=True)
     (wd / ".__experimaestro__").touch()
     for j in jobs:
